@@ -80,11 +80,23 @@ class FArr:
     def at(self, j):
         return self.fn(iterm(j))
 
+    def snapshot(self):
+        """index -> value closure frozen at the array's *current* content (views over buffers are lazy)"""
+        sn = getattr(self, "snap", None)
+        return sn() if sn is not None else self.fn
+
     def __getitem__(self, k):
         if isinstance(k, slice):
             lo, n = _slice_bounds(k, self.length)
             base = self.fn
-            return FArr(n, lambda j, lo=lo, base=base: base(lo + j), self.dt, self.name)
+            child = FArr(n, lambda j, lo=lo, base=base: base(lo + j), self.dt, self.name)
+            if getattr(self, "snap", None) is not None:
+                parent = self
+                child.snap = lambda lo=lo, parent=parent: (lambda j, f=parent.snapshot(): f(lo + j))
+            wt = getattr(self, "write_through", None)
+            if wt is not None:
+                child.write_through = lambda n2, src, lo=lo, wt=wt: wt(n2, src, lo)
+            return child
         if isinstance(k, (int, SInt)):
             return _scalar(self.fn(iterm(k)), self.dt)
         raise Unsupported(f"FArr index {type(k).__name__}")
@@ -100,7 +112,7 @@ class FArr:
                     # feasible shape mismatch -> numpy raises ValueError on that region
                     if not Ctx.cur.branch(z3.Or(n == v.length, v.length == 1)):
                         raise ValueError("could not broadcast input array (symbolic)")
-                vf = v.fn
+                vf = v.snapshot()
                 vl = v.length
                 self.fn = lambda j, old=old, lo=lo, n=n, vf=vf, vl=vl: z3.If(
                     z3.And(j >= lo, j < lo + n), z3.If(vl == 1, vf(z3.IntVal(0)), vf(j - lo)), old(j))
@@ -131,7 +143,11 @@ class FArr:
         ok = SBool(r * c == self.length)
         if not ok:
             raise ValueError("cannot reshape array (symbolic)")
-        return F2(r, c, lambda i, j, f=self.fn, c=c: f(i * c + j), self.dt)
+        out = F2(r, c, lambda i, j, f=self.fn, c=c: f(i * c + j), self.dt)
+        if getattr(self, "snap", None) is not None:
+            parent = self
+            out.snap = lambda parent=parent, c=c: (lambda i, j, f=parent.snapshot(): f(i * c + j))
+        return out
 
     def ravel(self):
         return self
@@ -170,6 +186,7 @@ class FArr:
         return FArr(self.length, g, "f4" if self.dt != "f8" else "f8", self.name)
 
     def __itruediv__(self, o):
+        self.divisors = getattr(self, "divisors", []) + [term(o)]
         return self._binop(o, lambda x, y: x / y, True)
 
     def __truediv__(self, o):
@@ -241,8 +258,19 @@ class F2:
     def slen(self):
         return SInt(self.rows)
 
+    def snapshot(self):
+        sn = getattr(self, "snap", None)
+        return sn() if sn is not None else self.fn
+
+    def _child(self, child, mk):
+        """child view: mk(f2) builds the child's index->value closure from a 2-D closure"""
+        if getattr(self, "snap", None) is not None:
+            parent = self
+            child.snap = lambda parent=parent, mk=mk: mk(parent.snapshot())
+        return child
+
     def transpose(self):
-        return F2(self.cols, self.rows, lambda i, j, f=self.fn: f(j, i), self.dt)
+        return self._child(F2(self.cols, self.rows, lambda i, j, f=self.fn: f(j, i), self.dt), lambda f: (lambda i, j: f(j, i)))
 
     @property
     def T(self):
@@ -250,7 +278,7 @@ class F2:
 
     def ravel(self):
         c = self.cols
-        return FArr(self.rows * self.cols, lambda k, f=self.fn, c=c: f(k / c, k % c), self.dt)
+        return self._child(FArr(self.rows * self.cols, lambda k, f=self.fn, c=c: f(k / c, k % c), self.dt), lambda f: (lambda k: f(k / c, k % c)))
 
     flatten = ravel
 
@@ -267,7 +295,7 @@ class F2:
         if isinstance(a, slice) and isinstance(b, slice):
             lo, n = _slice_bounds(a, self.rows)
             lo2, n2 = _slice_bounds(b, self.cols)
-            return F2(n, n2, lambda i, j: f(lo + i, lo2 + j), self.dt)
+            return self._child(F2(n, n2, lambda i, j: f(lo + i, lo2 + j), self.dt), lambda f: (lambda i, j: f(lo + i, lo2 + j)))
         if isinstance(a, slice) and isinstance(b, (int, SInt)):
             lo, n = _slice_bounds(a, self.rows)
             c = iterm(b)
@@ -275,14 +303,14 @@ class F2:
             if not SBool(z3.And(c >= -self.cols, c < self.cols)):
                 raise IndexError("index out of bounds (symbolic)")
             c = z3.If(c < 0, c + self.cols, c)
-            return FArr(n, lambda i: f(lo + i, c), self.dt)
+            return self._child(FArr(n, lambda i: f(lo + i, c), self.dt), lambda f: (lambda i: f(lo + i, c)))
         if isinstance(a, (int, SInt)) and isinstance(b, slice):
             lo2, n2 = _slice_bounds(b, self.cols)
             r = iterm(a)
             if not SBool(z3.And(r >= -self.rows, r < self.rows)):
                 raise IndexError("index out of bounds (symbolic)")
             r = z3.If(r < 0, r + self.rows, r)
-            return FArr(n2, lambda j: f(r, lo2 + j), self.dt)
+            return self._child(FArr(n2, lambda j: f(r, lo2 + j), self.dt), lambda f: (lambda j: f(r, lo2 + j)))
         raise Unsupported("F2 index kinds")
 
 
